@@ -56,7 +56,7 @@ Act(r) ==
   \/ r.ev = "CmdHold" /\ CmdHold(r.arg)
   \/ r.ev = "CmdRelease" /\ CmdRelease(r.arg)
   \/ r.ev = "CmdHoldPoint" /\ CmdHoldPoint(r.arg)
-  \/ r.ev = "CmdReleaseHoldPoint" /\ CmdReleaseHoldPoint
+  \/ r.ev = "CmdReleaseHoldPoint" /\ CmdReleaseHoldPointAs(r.st.q)
   \/ r.ev = "CmdStopPoint" /\ CmdStopPoint(r.arg)
   \/ r.ev = "CmdTrigger" /\ CmdTrigger(r.arg)
   \/ r.ev = "CmdSetOut" /\ CmdSetOut(r.arg[1], r.arg[2])
